@@ -21,7 +21,7 @@ def _run_batch(args):
     os.makedirs(bdir)
     sess = Session(bdir, reflink=opts.get("reflink", False), exact=opts.get("exact", False),
                    total=opts.get("total", False), layout=opts.get("layout", False),
-                   relcache=opts.get("relcache", False) and (bid % 2 == 1))
+                   relcache=opts.get("relcache", False) and (bid % 2 == 1), fullfs=opts.get("fullfs", 0))
     out = {"bid": bid, "programs": len(programs), "divs": [], "error": None}
     try:
         results, finals = [], []
